@@ -18,6 +18,10 @@ func main() {
 		probe()
 		return
 	}
+	if len(os.Args) > 1 && os.Args[1] == "probe4" {
+		probe4()
+		return
+	}
 	if len(os.Args) > 1 && os.Args[1] == "probe2" {
 		probe2()
 		return
